@@ -401,6 +401,29 @@ struct shape_checker
     }
 };
 
+// the summed-area table with an input scalar NARROWER than the output scalar and values at the limits of the input
+// type: a prefix sum along any axis leaves the input type's range, so an accumulation carried out in the input type
+// (instead of the output type) shows as a wrong cell (seeded change C16/4: std::partial_sum in the 1-D pass)
+template <class tin, class tout, size_t R>
+void integral_case_widening(const std::array<tensor_size_t, R>& dims, vh::rng_t& rng, const long long lo, const long long hi)
+{
+    tensor_mem_t<tin, R>  in(dims);
+    tensor_mem_t<tout, R> out(dims);
+    for (tensor_size_t i = 0; i < in.size(); ++i)
+    {
+        const auto pick = rng.range(0, 3);
+        const long long v = pick == 0 ? hi : pick == 1 ? lo : static_cast<long long>(rng.range(0, 1000)) * (hi - lo) / 1000 + lo;
+        in(i) = static_cast<tin>(v);
+    }
+    out.zero();
+    integral(in, out);
+    std::string si, so;
+    for (tensor_size_t i = 0; i < in.size(); ++i) { si += (i ? "," : "") + std::to_string(static_cast<long long>(in(i))); }
+    for (tensor_size_t i = 0; i < out.size(); ++i) { so += (i ? "," : "") + std::to_string(static_cast<long long>(out(i))); }
+    std::printf("INTEGRAL %s | %s = %s\n", ds(dims).c_str(), si.c_str(), so.c_str());
+    ++g_lines;
+}
+
 template <size_t R>
 void integral_case(const std::array<tensor_size_t, R>& dims, vh::rng_t& rng)
 {
@@ -411,6 +434,19 @@ void integral_case(const std::array<tensor_size_t, R>& dims, vh::rng_t& rng)
     integral(in, out);
     std::printf("INTEGRAL %s | %s = %s\n", ds(dims).c_str(), join(in.begin(), in.end()).c_str(), join(out.begin(), out.end()).c_str());
     ++g_lines;
+    // widening combinations (sums stay exact in the output type: at most a few hundred cells per enumerated shape)
+    if (in.size() > 0 && in.size() <= 4096)
+    {
+        switch (rng.range(0, 5))
+        {
+        case 0: integral_case_widening<int8_t, int32_t, R>(dims, rng, -128, 127); break;
+        case 1: integral_case_widening<uint8_t, uint32_t, R>(dims, rng, 0, 255); break;
+        case 2: integral_case_widening<int16_t, int64_t, R>(dims, rng, -32768, 32767); break;
+        case 3: integral_case_widening<uint16_t, uint64_t, R>(dims, rng, 0, 65535); break;
+        case 4: integral_case_widening<uint8_t, double, R>(dims, rng, 0, 255); break;
+        default: integral_case_widening<float, double, R>(dims, rng, -(1LL << 24), 1LL << 24); break;
+        }
+    }
 }
 
 template <class tscalar, size_t R>
